@@ -1,5 +1,6 @@
 import Pyunicorn.Lemmas.Access
 import Pyunicorn.Lemmas.WhileSafe
+import Pyunicorn.Lemmas.Binary64
 import Pyunicorn.Generated.StructC20
 import Pyunicorn.Generated.StructC20Pyx
 /-!
@@ -228,6 +229,59 @@ theorem symbolRnd_in_range_partial (rnd : Rat → Rat) (hmono : ∀ x y, x ≤ y
       rwa [h0] at this
     exact truncInt_bounds h3 (hlt _ h2 hr (hidem _))
   · omega
+
+/-- **round 3: the hypothesis `hlt` discharged for IEEE-754 binary64.**  For every rounding
+`rnd` that is monotone, fixes 0, is idempotent, returns binary64 values and returns a *nearest*
+one (any tie-breaking rule — `B64.Nearest`), every `scaling ≥ 0`, every sample `x ≥ range_min`
+and every `1 ≤ n_bins < 2^31` (Cython's `int n_bins`), the symbol computed with a rounding after
+each of the three floating-point operations lies in `[0, n_bins)`: the rounded product of a
+double `r < 1` with `n_bins` is strictly below `n_bins` (`B64.b64_mul_lt`: `r ≤ 1 - 2^-53`
+puts `r·n_bins` at least half a grid step below `n_bins`, and exactly half a step only where
+the product is itself a double).  A binary32 value is a binary64 value, so this covers the
+`float` rescaled value of `_mutual_information` as well. -/
+theorem symbolRnd_in_range_b64 (rnd : Rat → Rat) (hmono : ∀ x y, x ≤ y → rnd x ≤ rnd y)
+    (h0 : rnd 0 = 0) (hidem : ∀ x, rnd (rnd x) = rnd x) (hnear : Pyunicorn.B64.Nearest rnd)
+    (hrep : ∀ x, Pyunicorn.B64.IsB64 (rnd x)) (s m v : Rat) (nb : Int)
+    (hs : 0 ≤ s) (hv : m ≤ v) (hnb : 1 ≤ nb) (hnb31 : nb < 2 ^ 31) :
+    0 ≤ symbolRnd rnd s m nb v ∧ symbolRnd rnd s m nb v < nb :=
+  symbolRnd_in_range_partial rnd hmono h0 hidem s m v nb hs hv hnb
+    (fun r hr0 hr1 hfix =>
+      Pyunicorn.B64.b64_mul_lt rnd hnear r (hfix ▸ hrep r) hr0 hr1 nb hnb hnb31)
+
+/-- **round 3: data with infinities.**  With IEEE semantics for `±inf` and NaN (`XR`): whenever
+`scaling` is not negative (`≥ 0`, `+inf` — the float overflow of `1/(max-min)` — or NaN) and
+`range_min ≤ x` in the extended order or one of them is NaN (what `min` of the data gives:
+`-inf ≤ x`, and NaN as soon as any entry is NaN), the rescaled value is never `-inf` — so no
+undefined float→int conversion is executed — and the symbol lies in `[0, n_bins)`:
+`inf - inf`, `0·inf` are NaN and take the `else` branch, `+inf` is not `< 1.0`. -/
+theorem symbolX_in_range (s m x : XR) (nb : Int) (hnb : 1 ≤ nb) (hs : s.notNeg = true)
+    (hmx : m.isNan = true ∨ x.isNan = true ∨ XR.le m x = true) :
+    ∃ k, symbolX s m nb x = some k ∧ 0 ≤ k ∧ k < nb := by
+  have hr : (XR.mul s (XR.sub x m)).notNeg = true :=
+    XR.mul_notNeg _ _ hs (XR.sub_notNeg m x hmx)
+  unfold symbolX
+  generalize XR.mul s (XR.sub x m) = r at hr
+  cases r with
+  | nan => exact ⟨nb - 1, rfl, by omega, by omega⟩
+  | pinf => exact ⟨nb - 1, rfl, by omega, by omega⟩
+  | ninf => simp [XR.notNeg] at hr
+  | fin q =>
+    have hq : 0 ≤ q := by simpa [XR.notNeg] using hr
+    refine ⟨_, rfl, ?_⟩
+    split
+    · rename_i hlt
+      apply truncInt_bounds
+      · exact Rat.mul_nonneg hq (by exact_mod_cast (by omega : (0:Int) ≤ nb))
+      · have hnbpos : (0 : Rat) < (nb : Rat) := by exact_mod_cast (by omega : (0:Int) < nb)
+        calc q * (nb : Rat) < 1 * (nb : Rat) := Rat.mul_lt_mul_of_pos_right hlt hnbpos
+          _ = nb := by simp
+    · omega
+
+/-- `+inf` in the data (`max = +inf`, so `scaling = 1/inf = 0`): finite samples get bin 0, the
+infinite one `0·inf = NaN` the last bin; a rescaled `-inf` (negative scaling) is the undefined case -/
+example : symbolX (.fin 0) (.fin 1) 4 (.fin 3) = some 0 ∧ symbolX (.fin 0) (.fin 1) 4 .pinf = some 3
+    ∧ symbolX (.fin 1) .ninf 4 (.fin 3) = some 3 ∧ symbolX (.fin (-1)) (.fin 0) 4 .pinf = none := by
+  decide +kernel
 
 /-- exact arithmetic is an instance (so the hypotheses are satisfiable), and there
 `symbolRnd` is `symbol` -/
